@@ -323,6 +323,24 @@ impl ResumeRejection {
     }
 }
 
+/// Protected state as JSON fields, logged by the `verif-hooks` events while the
+/// mutex is held (so event order is the linearization order).
+#[cfg(feature = "verif-hooks")]
+fn verif_state(g: &TransferControlInner) -> String {
+    format!(
+        "\"sent\":{},\"acked\":{},\"file\":{},\"cancelled\":{},\"pending\":{},\"window\":{}",
+        g.sent_offset,
+        g.acked_offset,
+        g.current_file_index,
+        g.cancelled.is_some(),
+        g.pending_resume
+            .as_ref()
+            .map(|p| p.resume_at_offset as i64)
+            .unwrap_or(-1),
+        g.window_bytes
+    )
+}
+
 impl TransferControl {
     /// Build a control with the default replay-ring capacity
     /// ([`DEFAULT_REPLAY_RING_BYTES`]).
@@ -359,6 +377,8 @@ impl TransferControl {
     pub fn set_peer(&self, peer: PeerHandle) {
         let mut g = self.inner.lock().expect("TransferControl mutex poisoned");
         g.peer = Some(peer);
+        #[cfg(feature = "verif-hooks")]
+        crate::verif::ev(format!("\"ev\":\"set_peer\",{}", verif_state(&g)));
     }
 
     /// Clone of the current peer. The producer reads this on every
@@ -384,6 +404,8 @@ impl TransferControl {
     pub fn push_replay(&self, offset: u64, data_len: u64, last: bool, body_bytes: Vec<u8>) {
         let mut g = self.inner.lock().expect("TransferControl mutex poisoned");
         g.replay.push(offset, data_len, last, body_bytes);
+        #[cfg(feature = "verif-hooks")]
+        crate::verif::ev(format!("\"ev\":\"push\",\"off\":{offset},\"dlen\":{data_len},{}", verif_state(&g)));
     }
 
     /// Snapshot the ring chunks at or after `offset`. Returns owned
@@ -412,15 +434,21 @@ impl TransferControl {
     ) -> Result<u64, ResumeRejection> {
         let mut g = self.inner.lock().expect("TransferControl mutex poisoned");
         if g.cancelled.is_some() {
+            #[cfg(feature = "verif-hooks")]
+            crate::verif::ev(format!("\"ev\":\"resume\",\"f\":{file_index},\"o\":{last_received_offset},\"ok\":false,{}", verif_state(&g)));
             return Err(ResumeRejection::Cancelled);
         }
         if file_index != g.current_file_index {
+            #[cfg(feature = "verif-hooks")]
+            crate::verif::ev(format!("\"ev\":\"resume\",\"f\":{file_index},\"o\":{last_received_offset},\"ok\":false,{}", verif_state(&g)));
             return Err(ResumeRejection::WrongFileIndex {
                 requested: file_index,
                 current: g.current_file_index,
             });
         }
         if !g.replay.covers(last_received_offset) {
+            #[cfg(feature = "verif-hooks")]
+            crate::verif::ev(format!("\"ev\":\"resume\",\"f\":{file_index},\"o\":{last_received_offset},\"ok\":false,{}", verif_state(&g)));
             return Err(ResumeRejection::OutOfWindow);
         }
         g.peer = Some(new_peer);
@@ -438,6 +466,8 @@ impl TransferControl {
             g.acked_offset = last_received_offset;
         }
         self.cv.notify_all();
+        #[cfg(feature = "verif-hooks")]
+        crate::verif::ev(format!("\"ev\":\"resume\",\"f\":{file_index},\"o\":{last_received_offset},\"ok\":true,{}", verif_state(&g)));
         Ok(last_received_offset)
     }
 
@@ -454,20 +484,30 @@ impl TransferControl {
         let mut g = self.inner.lock().expect("TransferControl mutex poisoned");
         loop {
             if let Some(reason) = g.cancelled.clone() {
+                #[cfg(feature = "verif-hooks")]
+                crate::verif::ev(format!("\"ev\":\"w_return\",\"kind\":\"reconnect\",\"res\":\"cancelled\",{}", verif_state(&g)));
                 return ReconnectOutcome::Cancelled(reason);
             }
             if let Some(pending) = g.pending_resume.take() {
+                #[cfg(feature = "verif-hooks")]
+                crate::verif::ev(format!("\"ev\":\"w_return\",\"kind\":\"reconnect\",\"res\":\"resume\",\"at\":{},{}", pending.resume_at_offset, verif_state(&g)));
                 return ReconnectOutcome::ResumeReady(pending);
             }
             let now = Instant::now();
             if now >= deadline {
+                #[cfg(feature = "verif-hooks")]
+                crate::verif::ev(format!("\"ev\":\"w_return\",\"kind\":\"reconnect\",\"res\":\"timeout\",{}", verif_state(&g)));
                 return ReconnectOutcome::Timeout;
             }
+            #[cfg(feature = "verif-hooks")]
+            crate::verif::ev(format!("\"ev\":\"w_park\",\"kind\":\"reconnect\",\"len\":0,{}", verif_state(&g)));
             let (gg, _) = self
                 .cv
                 .wait_timeout(g, deadline - now)
                 .expect("TransferControl mutex poisoned");
             g = gg;
+            #[cfg(feature = "verif-hooks")]
+            crate::verif::ev(format!("\"ev\":\"w_wake\",\"kind\":\"reconnect\",{}", verif_state(&g)));
         }
     }
 
@@ -484,6 +524,8 @@ impl TransferControl {
         let mut guard = self.inner.lock().expect("TransferControl mutex poisoned");
         loop {
             if let Some(reason) = guard.cancelled.clone() {
+                #[cfg(feature = "verif-hooks")]
+                crate::verif::ev(format!("\"ev\":\"w_return\",\"kind\":\"credit\",\"res\":\"cancelled\",{}", verif_state(&guard)));
                 return Err(CreditError::Cancelled(reason));
             }
             let in_flight = guard.sent_offset.saturating_sub(guard.acked_offset);
@@ -492,18 +534,26 @@ impl TransferControl {
             // chunk always passes; the practical case
             // (chunk_size <= window_bytes) is unaffected.
             if in_flight == 0 || in_flight + chunk_len <= guard.window_bytes {
+                #[cfg(feature = "verif-hooks")]
+                crate::verif::ev(format!("\"ev\":\"w_return\",\"kind\":\"credit\",\"res\":\"ok\",{}", verif_state(&guard)));
                 return Ok(());
             }
             let now = Instant::now();
             if now >= deadline {
+                #[cfg(feature = "verif-hooks")]
+                crate::verif::ev(format!("\"ev\":\"w_return\",\"kind\":\"credit\",\"res\":\"timeout\",{}", verif_state(&guard)));
                 return Err(CreditError::Timeout);
             }
             let timeout = deadline - now;
+            #[cfg(feature = "verif-hooks")]
+            crate::verif::ev(format!("\"ev\":\"w_park\",\"kind\":\"credit\",\"len\":{chunk_len},{}", verif_state(&guard)));
             let (g, _) = self
                 .cv
                 .wait_timeout(guard, timeout)
                 .expect("TransferControl mutex poisoned");
             guard = g;
+            #[cfg(feature = "verif-hooks")]
+            crate::verif::ev(format!("\"ev\":\"w_wake\",\"kind\":\"credit\",{}", verif_state(&guard)));
         }
     }
 
@@ -521,6 +571,8 @@ impl TransferControl {
             guard.sent_offset = new_offset;
         }
         guard.last_chunk_at = Instant::now();
+        #[cfg(feature = "verif-hooks")]
+        crate::verif::ev(format!("\"ev\":\"sent\",\"o\":{new_offset},{}", verif_state(&guard)));
     }
 
     /// Apply an ACK from the receiver. Stale or out-of-order ACKs
@@ -538,6 +590,8 @@ impl TransferControl {
                 self.cv.notify_all();
             }
         }
+        #[cfg(feature = "verif-hooks")]
+        crate::verif::ev(format!("\"ev\":\"ack\",\"f\":{file_index},\"o\":{received_through_offset},{}", verif_state(&guard)));
     }
 
     /// Mark the transfer cancelled. Sticky; subsequent calls are
@@ -548,6 +602,8 @@ impl TransferControl {
             guard.cancelled = Some(reason.into());
             self.cv.notify_all();
         }
+        #[cfg(feature = "verif-hooks")]
+        crate::verif::ev(format!("\"ev\":\"cancel\",{}", verif_state(&guard)));
     }
 
     pub fn is_cancelled(&self) -> bool {
@@ -583,6 +639,8 @@ impl TransferControl {
         guard.last_chunk_at = now;
         guard.last_ack_at = now;
         self.cv.notify_all();
+        #[cfg(feature = "verif-hooks")]
+        crate::verif::ev(format!("\"ev\":\"advance\",\"f\":{next_file_index},{}", verif_state(&guard)));
     }
 
     /// Snapshot for the watchdog: `(last_chunk_at, last_ack_at)`.
